@@ -3,6 +3,7 @@ package c09
 import (
 	"bytes"
 	"fmt"
+	"os"
 	"sort"
 	"testing"
 	"time"
@@ -391,7 +392,18 @@ func avoid(f failer, c *Case) bool {
 		case <-done:
 			return false
 		case <-time.After(20 * time.Second):
-			f.Fatalf("C09 hang: target %s did not return within 20 s (signature %q; the loop of CalculateRootFromRightWitness consumes nothing once the layer index passes the bits of the node index)\ncase: %s", c.Target, sigWitnessHang, c.json())
+			// A spinning call cannot be abandoned: its goroutine keeps a core busy, and letting the test go on (rapid would shrink by
+			// trying more such cases) only piles up spinning goroutines until the shard runs into its test timeout (seeded change C09-u was
+			// reported that way after 15 minutes). Same ending as the general watchdog: case file, verdict, process exit.
+			pth := ""
+			if evid.R != nil {
+				pth = evid.R.FailCase("hang", c)
+			}
+			fmt.Printf("--- FAIL: C09 hang: target %s did not return within 20 s (signature %q; the loop of CalculateRootFromRightWitness consumes nothing once the layer index passes the bits of the node index; case file %s)\ncase: %s\n", c.Target, sigWitnessHang, pth, c.json())
+			if evid.R != nil {
+				evid.R.Flush()
+			}
+			os.Exit(1)
 			return true
 		}
 	}
